@@ -13,7 +13,8 @@ OTHER = ['!', '!foo', '!<tag:example.com,2000:x>', '!<x>', '!!python/object', '!
 
 KINDS = [("scalar-empty", "''"), ('scalar-x', 'x'), ('seq-empty', '[]'), ('seq-x', '[x]'), ('map-empty', '{}'), ('map-ab', '{a: b}'),
          ('long', '{args: [x], kwds: {a: b}, state: {a: b}, listitems: [x], dictitems: {a: b}}'), ('seq-args', '[1, 2]'),
-         ('scalar-num', '1'), ('state-dunder', '{state: {__class__: x, append: y}, args: []}')]
+         ('scalar-num', '1'), ('state-dunder', '{state: {__class__: x, append: y}, args: []}'),
+         ('value-key-scalar', '{=: x}'), ('value-key-seq', '{=: [a, b]}'), ('value-key-map', '{=: {a: b}}')]
 
 CONTEXTS = ['root', 'seq-item', 'map-value', 'map-key', 'set-member', 'omap-value', 'pairs-value', 'aliased', 'merge', 'merge-list', 'nested',
             'second-doc', 'omap-entry', 'pairs-entry', 'deep', 'key-and-value']
@@ -70,7 +71,7 @@ def structural_tags():
     return out
 
 
-CANARY_NAMES = ['vf_canary.f', 'vf_canary.g', 'vf_canary.K', 'vf_canary.L', 'vf_canary.M', 'vf_canary.VALUE', 'vf_canary.INSTANCE', 'vf_canary.missing',
+CANARY_NAMES = ['vf_cold_pkg.sub.mod.f', 'vf_cold_pkg.sub.f', 'vf_cold_pkg.f', 'vf_cold_pkg.sub.mod', 'xml.dom.minidom.parse', 'wsgiref.simple_server.make_server', 'vf_canary.f', 'vf_canary.g', 'vf_canary.K', 'vf_canary.L', 'vf_canary.M', 'vf_canary.VALUE', 'vf_canary.INSTANCE', 'vf_canary.missing',
                 'vf_canary', 'vf_canary_cold.f', 'vf_canary_cold', 'wave.open', 'wave', 'nosuchmodule.x', 'nosuchmodule', '', '.', 'eval', 'exec', 'open', 'len',
                 'builtins.eval', 'os.system', 'os.getcwd', 'os.path.join', 'subprocess.Popen', 'sys.exit', 'time.time', 'dict', 'list', 'type', 'object',
                 'builtins.__import__', 'yaml.load', 'yaml.UnsafeLoader', 'vf_canary.K.append', 'vf_canary..f', 'vf_canary.f.', '__main__.x', 'datetime.datetime',
@@ -84,7 +85,7 @@ def module_names():
         m = sys.modules.get(mn)
         if m is None or not all(p.isidentifier() for p in mn.split('.')):
             continue
-        if mn.startswith(('vf.', 'vf_canary')) or mn in ('vf', '__main__', '__mp_main__'):
+        if mn.startswith(('vf.', 'vf_canary', 'vf_cold')) or mn in ('vf', '__main__', '__mp_main__'):
             continue
         try:
             names = dir(m)
